@@ -66,6 +66,25 @@ def parse_reg(s):
     return R(n, v or None)
 
 
+def round_lane(bits, lw, imm):
+    """ROUNDPS/PD of one lane (imm[1:0] = nearest-even / floor / ceil / truncate, imm[2] = 0), IEEE bit patterns in and out"""
+    import math
+    import struct
+    ebits, mbits = (8, 23) if lw == 32 else (11, 52)
+    exp = (bits >> mbits) & ((1 << ebits) - 1)
+    man = bits & ((1 << mbits) - 1)
+    if exp == (1 << ebits) - 1:
+        return bits | (1 << (mbits - 1)) if man else bits        # NaN -> quiet NaN, infinity unchanged
+    x = struct.unpack("<f" if lw == 32 else "<d", bits.to_bytes(lw // 8, "little"))[0]
+    if abs(x) >= 2.0 ** mbits:
+        return bits
+    mode = imm & 3
+    r = float(round(x) if mode == 0 else math.floor(x) if mode == 1 else math.ceil(x) if mode == 2 else math.trunc(x))
+    if r == 0.0:
+        r = math.copysign(0.0, x)
+    return int.from_bytes(struct.pack("<f" if lw == 32 else "<d", r), "little")
+
+
 def render(prog):
     out = ["arch " + " ".join(prog["arch"])]
     for name, ty in prog["regs"]:
@@ -408,6 +427,18 @@ class Interp:
             a, b = self.val(ops[1], w), self.val(ops[2], w)
             m = (1 << w) - 1
             self.put(ops[0], {"vpand": a & b, "vpandn": (~a & m) & b, "vpor": a | b, "vpxor": a ^ b}[name])
+        elif name in ("vroundps", "vroundpd"):
+            w = self.width(ops[0])
+            lw = 32 if name == "vroundps" else 64
+            a = self.val(ops[1], w)
+            r = 0
+            for i in range(0, w, lw):
+                r |= round_lane((a >> i) & ((1 << lw) - 1), lw, ops[2].v) << i
+            self.put(ops[0], r)
+        elif name in ("vroundss", "vroundsd"):
+            lw = 32 if name == "vroundss" else 64
+            a, b = self.val(ops[1], 128), self.val(ops[2], 128)
+            self.put(ops[0], (a & ~((1 << lw) - 1)) | round_lane(b & ((1 << lw) - 1), lw, ops[3].v))
         elif name in ("vextractf128", "vextracti128"):
             self.put(ops[0], (self.val(ops[1], 256) >> (128 * (ops[2].v & 1))) & ((1 << 128) - 1))
         elif name in ("vinsertf128", "vinserti128"):
